@@ -42,6 +42,7 @@ def demo_cmd(src, wt):
         if rel.startswith("tmp/mut/"):
             rel = rel.split("/", 3)[3]
         dst = os.path.join(wt, rel)
+        os.makedirs(os.path.dirname(dst), exist_ok=True)
         shutil.copy(dt, dst)
         return "go test -count=1 ./%s/" % os.path.dirname(rel), dst
     dm = os.path.join(src, "demo")
